@@ -192,7 +192,11 @@ fn check_req(reader: &IndexReader, docs: &[D], req: &Value, obs: &mut Obs) -> Re
   if actual.hits.len() > limit {
     return Err(mk("more-hits-than-limit", format!("{} hits for limit {limit}", actual.hits.len()), ctx_json(json!(null))));
   }
-  // scores reported for representatives and inner hits equal the base ranking's scores
+  // scores reported for representatives and inner hits equal the base ranking's scores. When the
+  // request sort has no `_score` key the uncollapsed run reports match-only scores (0.0); what a
+  // collapse response reports then is not documented: the match-only value or the real score
+  // (same query sorted by score) are both accepted.
+  let mut real: Option<Ranking> = None;
   for (h, _) in reps.iter() {
     let mut all = vec![*h];
     if let Some(i) = h.inner_hits.as_ref() {
@@ -201,7 +205,18 @@ fn check_req(reader: &IndexReader, docs: &[D], req: &Value, obs: &mut Obs) -> Re
     for x in all {
       if let Some(s) = rmain.score.get(&x.doc_id) {
         if !score_close(*s, x.score) {
-          return Err(mk("score-differs-from-uncollapsed-request", format!("{}: {} vs {}", x.doc_id, x.score, s), ctx_json(json!(null))));
+          let mut ok = false;
+          if !rk::uses_score(&main_sort) {
+            if real.is_none() {
+              if let Ok(Ok(r)) = vcore::ctx::catch(|| idx::search(reader, strip(req, Some(&score_desc)))) {
+                real = Some(Ranking::from(&r));
+              }
+            }
+            ok = real.as_ref().and_then(|r| r.score.get(&x.doc_id)).map(|r| score_close(*r, x.score)).unwrap_or(false);
+          }
+          if !ok {
+            return Err(mk("score-differs-from-uncollapsed-request", format!("{}: {} vs {}", x.doc_id, x.score, s), ctx_json(json!(null))));
+          }
         }
       }
     }
